@@ -47,7 +47,10 @@ func alertComparatorHarness(c *CheckCtx, in *Interp) *HarnessResult {
 					case "SignatureID", "SignatureName", "Severity", "MatchedFunction":
 						sv.f[i] = p.vxDeclStr(2, false, tag+"."+st.Field(i).Name())
 					case "Confidence":
-						sv.f[i] = p.vxScalar(KFP, 64, tag+".Confidence")
+						cf := p.vxScalar(KFP, 64, tag+".Confidence")
+						// alerts carry real confidences in [0,1] (C08)
+						p.assume(p.and(p.fpCmp("fp.geq", cf, mkF64(0)), p.fpCmp("fp.leq", cf, mkF64(1))))
+						sv.f[i] = cf
 					}
 				}
 				return sv
